@@ -25,9 +25,10 @@ CFG = {
     "weights": {"eval": 6, "reeval": 1, "set": 3, "clearat": 2, "clear": 0.8, "clearall": 0.5},
     "compare": ["values", "graph", "refgraph"],
     "maxdepths": [None],
-    "raise_p": 0.02, "none_p": 0.02, "catch_all_p": 0.05, "all_cached": False, "default_p": 0.35,
+    "raise_p": 0.02, "none_p": 0.02, "catch_all_p": 0.05, "all_cached": False, "default_p": 0.35, "same_p": 0.3,
     "rule": "random dependency DAGs (recursion, fan-in through lower cells, uncached cells in between) with "
-            "histories mixing evaluations and value edits of arbitrary elements; non-trivial = an edit whose "
+            "histories mixing evaluations and value edits of arbitrary elements (three in ten assignments give a computed "
+            "element the very object it holds); non-trivial = an edit whose "
             "element had at least one held dependent and at least one held non-dependent",
 }
 
@@ -366,6 +367,72 @@ def overwrite_equal(out, stats):
     close_all()
 
 
+def assign_held_object(out, stats):
+    """Scenario family "an element is assigned the very object it holds" (`cells[k] = cells[k]`, pasting a calculated
+    value over its calculation): the calculation read a reference by name / through an attribute path / called another
+    cells, the value is a small int, a big int, a float, a tuple, a string, None; a dependent was calculated from it.
+    The assignment is a value edit like any other: the element is an input afterwards and returns the object, its
+    dependent is discarded and recalculated; and INPUTS PERSIST: changing what the replaced calculation had read
+    (the reference, the callee) does not touch the assigned value."""
+    from ..impl import close_all
+    reads = {
+        "attribute-path": ("def a(x): return P.rate if x else None", lambda P, s: setattr(P, "rate", ("changed",))),
+        "by-name": ("def a(x): return rate if x else None", lambda P, s: setattr(s, "rate", ("changed",))),
+        "callee": ("def a(x): return src(x) if x else None", lambda P, s: s.src.__setitem__(1, ("changed",))),
+        "nested-path": ("def a(x): return P.Q.rate if x else None", lambda P, s: setattr(P.Q, "rate", ("changed",))),
+    }
+    values = [7, 10 ** 9, 2.5, (1, 2), "text", None]
+    for recalc in (False, True):
+        for rname, (src, change) in reads.items():
+            for val in values:
+                hist = {"scenario": "assign_held_object", "read": rname, "value": repr(val), "recalc": recalc}
+                close_all()
+                with quiet():
+                    m = mx.new_model("E")
+                    s = m.new_space("S")
+                    P = m.new_space("P")
+                    P.new_space("Q").rate = val
+                    P.rate = val
+                    s.rate = val
+                    s.P = P
+                    s.v = val
+                    s.new_cells("src", formula="lambda x: v").allow_none = True
+                    s.new_cells("a", formula=src).allow_none = True
+                    s.new_cells("b", formula="def b(x): return (a(x), other())")
+                    s.new_cells("other", formula="def other(): return 5")
+                    mx.set_recalc(recalc)
+                    s.b(1)
+                    obj = s.a(1)
+                    try:
+                        s.a[1] = obj
+                    except BaseException as e:      # noqa: BLE001
+                        out.fail("a[1] = a[1] raised %r" % e, hist)
+                        continue
+                    stats["assign_held_object_scenarios"] += 1
+                    bad = []
+                    if val is not None and (1,) not in s.a._impl.input_keys:
+                        bad.append("a(1) is not an input after a[1] = a[1]")
+                    if not recalc and (1,) in s.b._impl.data:
+                        bad.append("the dependent b(1) was not discarded by the assignment")
+                    try:
+                        change(P, s)
+                        if val is not None and s.a._impl.data.get((1,), "nothing") is not obj:
+                            bad.append("the assigned value of a(1) did not persist when what the replaced calculation had "
+                                       "read (%s) changed: a holds %r" % (rname, dict(s.a)))
+                        if val is not None and s.b(1) != (obj, 5):
+                            bad.append("b(1) is %r, from the input it is %r" % (s.b(1), (obj, 5)))
+                        s.a.clear()
+                        if val is not None and s.a._impl.data.get((1,), "nothing") is not obj:
+                            bad.append("clear() discarded the assigned value")
+                    except BaseException as e:      # noqa: BLE001
+                        bad.append("after the assignment an edit / evaluation raised %r" % e)
+                    if bad:
+                        out.fail("a(1) assigned the object it holds (%r, calculated reading %s): %s" % (
+                            val, rname, "; ".join(bad)), hist)
+                mx.set_recalc(False)
+    close_all()
+
+
 def scenario_cases():
     """Scenario family "an input does not outlive the redefinition of its cells" (exec_props.input_then_redefined_cases)
     with a value edit as the last step: clear() must discard the recomputed element (it is not an input any more) with
@@ -478,6 +545,8 @@ def run(ctx, out):
                          structured=scenario_cases() + spelled_edit_cases() + recalc_cases() + X.copy_cases()
                          + dagenum.sample_cases(ctx, 4, ctx.n(40, 400)))
     overwrite_equal(out, stats)
+    assign_held_object(out, stats)
+    out.coverage["input_distribution"]["assign_held_object_scenarios"] = stats["assign_held_object_scenarios"]
     dag_enumeration(ctx, out, stats)
     for k in ("dag_shapes", "dag_orders", "dag_scenarios"):
         out.coverage["input_distribution"][k] = stats[k]
@@ -515,6 +584,9 @@ def _replay_dag(h, out):
 def replay(ctx, payload, out):
     import collections
     h = payload.get("history") or {}
+    if isinstance(h, dict) and h.get("scenario") == "assign_held_object":
+        assign_held_object(out, collections.Counter())
+        return
     if isinstance(h, dict) and h.get("scenario") == "overwrite_equal":
         overwrite_equal(out, collections.Counter())
         return
